@@ -17,9 +17,11 @@ import (
 	"fmt"
 	"os"
 	"os/exec"
+	"runtime"
 	"sort"
 	"strings"
 	"sync"
+	"sync/atomic"
 	"time"
 	"unicode"
 	"unicode/utf8"
@@ -59,6 +61,7 @@ type Reg struct {
 	Kind  string      // CallFunc, PushFunc, CallStruct, PushStruct
 	V     interface{} // the function or the controller pointer
 	Tags  []string    // identities of the handlers this registration carries
+	Form  string      // func, methodexpr, ctlfunc, struct (only used to spread the concurrent workload over the forms)
 	Fresh bool        // build a new SubRouter chain instead of reusing a cached one
 }
 
@@ -83,6 +86,8 @@ type Program struct {
 	Peers      []PeerSpec
 	Collisions []Collision
 	Direct     [][2]string // (prefix, name) pairs evaluated directly on the mapper
+	Seed       int64       // PRNG seed of the concurrent phase (yields, workload)
+	Rounds     int         // concurrent phase: rounds per peer (0 = none)
 }
 
 // ---------- report ----------
@@ -90,8 +95,9 @@ type Program struct {
 // Event is one handler invocation.
 type Event struct {
 	Tag  string `json:"tag"`
-	Kind string `json:"kind"` // call, push, ucall, upush
-	SM   string `json:"sm"`   // service method the handler saw
+	Kind string `json:"kind"`          // call, push, ucall, upush; guard: a controller was used by two invocations at once (SM = detail)
+	SM   string `json:"sm"`            // service method the handler saw
+	Arg  string `json:"arg,omitempty"` // the request id the handler found in its argument (the event is filed under the id in the metadata)
 }
 
 // RegReport is the observation of one registration.
@@ -112,16 +118,25 @@ type ProbeReport struct {
 	Src    string  `json:"src"` // the registered name the probe was derived from
 	Code   int32   `json:"code"`
 	Msg    string  `json:"msg,omitempty"`
-	Result string  `json:"result,omitempty"`
+	Result string  `json:"result,omitempty"` // calls: the handler identity named by the reply
+	RArg   string  `json:"rarg,omitempty"`   // calls: the request id from the handler's argument, as echoed in the reply
+	RMeta  string  `json:"rmeta,omitempty"`  // calls: the request id from the handler's ctx metadata, as echoed in the reply
+	RSeq   int32   `json:"rseq,omitempty"`   // calls: ctx.Seq() as echoed in the reply
+	Seq    int32   `json:"seq,omitempty"`    // calls: the sequence number of the request message
 	Events []Event `json:"events"`
 }
 
 // PeerReport holds the observations on one server peer.
 type PeerReport struct {
-	Class   string        `json:"class"`
-	Regs    []RegReport   `json:"regs"`
-	Probes  []ProbeReport `json:"probes"`
-	Problem string        `json:"problem,omitempty"` // harness-level trouble (connect failed, ...)
+	Class  string        `json:"class"`
+	Regs   []RegReport   `json:"regs"`
+	Probes []ProbeReport `json:"probes"`
+	// concurrent phase: what the handlers measured
+	ConcOps          int    `json:"conc_ops,omitempty"`
+	MaxInFlight      int64  `json:"max_in_flight,omitempty"`      // handlers running at once (all routes)
+	MaxInFlightSame  int64  `json:"max_in_flight_same,omitempty"` // invocations of ONE handler running at once
+	OverlappedInvocs int64  `json:"overlapped_invocs,omitempty"`  // invocations that started while the same handler was running
+	Problem          string `json:"problem,omitempty"`            // harness-level trouble (connect failed, ...)
 }
 
 // CollisionReport is the observation of one grandchild run.
@@ -165,29 +180,171 @@ var (
 	probeSet = map[string]bool{}
 )
 
-func record(pid, tag, kind, sm string) {
+func record(pid, tag, kind, sm, arg string) {
 	evMu.Lock()
 	if probeSet[pid] {
-		events[pid] = append(events[pid], Event{tag, kind, sm})
+		events[pid] = append(events[pid], Event{tag, kind, sm, arg})
 	} else if len(orphans) < 100 {
-		orphans = append(orphans, Event{tag, kind + ":" + pid, sm})
+		orphans = append(orphans, Event{tag, kind + ":" + pid, sm, arg})
 	}
 	evMu.Unlock()
+}
+
+// concurrency instrumentation of the handlers
+var (
+	yieldOn      int32
+	yieldSeed    uint64
+	yieldCtr     uint64
+	inFlight     int64
+	maxInFlight  int64
+	maxSame      int64
+	overlapped   int64
+	flightByTag  sync.Map // tag -> *int64
+	invocCounter uint64
+)
+
+func atomicMax(p *int64, v int64) {
+	for {
+		o := atomic.LoadInt64(p)
+		if v <= o || atomic.CompareAndSwapInt64(p, o, v) {
+			return
+		}
+	}
+}
+
+func enterHandler(tag string) *int64 {
+	atomicMax(&maxInFlight, atomic.AddInt64(&inFlight, 1))
+	c, _ := flightByTag.LoadOrStore(tag, new(int64))
+	n := atomic.AddInt64(c.(*int64), 1)
+	if n > 1 {
+		atomic.AddInt64(&overlapped, 1)
+	}
+	atomicMax(&maxSame, n)
+	return c.(*int64)
+}
+
+func leaveHandler(c *int64) {
+	atomic.AddInt64(c, -1)
+	atomic.AddInt64(&inFlight, -1)
+}
+
+// yield makes invocations overlap during the concurrent phase (PRNG-driven, no verdict depends on time).
+func yield() {
+	if atomic.LoadInt32(&yieldOn) == 0 {
+		return
+	}
+	z := atomic.AddUint64(&yieldCtr, 0x9E3779B97F4A7C15) + yieldSeed
+	z = (z ^ (z >> 30)) * 0xBF58476D1CE4E5B9
+	z = (z ^ (z >> 27)) * 0x94D049BB133111EB
+	switch v := (z ^ (z >> 31)) % 20; {
+	case v < 9:
+		runtime.Gosched()
+	case v < 14:
+		for i := 0; i < 4; i++ {
+			runtime.Gosched()
+		}
+	case v < 18:
+		time.Sleep(20 * time.Microsecond)
+	default:
+		time.Sleep(200 * time.Microsecond)
+	}
+}
+
+// Guard is a field of every generated controller: a controller object must never be used by two
+// invocations at once (the router takes controllers from a pool per invocation).
+type Guard struct {
+	n   int32
+	tok uint64
+}
+
+func (g *Guard) enter() (tok uint64, shared string) {
+	tok = atomic.AddUint64(&invocCounter, 1)
+	if n := atomic.AddInt32(&g.n, 1); n != 1 {
+		shared = fmt.Sprintf("controller entered while %d other invocation(s) were using it", n-1)
+	}
+	atomic.StoreUint64(&g.tok, tok)
+	return
+}
+
+func (g *Guard) exit(tok uint64) (shared string) {
+	if t := atomic.LoadUint64(&g.tok); t != tok {
+		shared = "another invocation entered this controller before this one left it"
+	}
+	atomic.AddInt32(&g.n, -1)
+	return
 }
 
 // MetaPID is the metadata key carrying the probe id.
 const MetaPID = "pid"
 
 // Call is the body of every generated CALL handler: it reports the handler's identity.
+// The reply names the handler, the request id found in the argument, the request id found in the
+// ctx metadata and ctx.Seq(), the last three read again after yielding.
 func Call(tag string, ctx erpc.CallCtx, arg *string) (string, *erpc.Status) {
-	record(string(ctx.PeekMeta(MetaPID)), tag, "call", ctx.ServiceMethod())
-	return tag, nil
+	c := enterHandler(tag)
+	defer leaveHandler(c)
+	a := ""
+	if arg != nil {
+		a = *arg
+	}
+	record(string(ctx.PeekMeta(MetaPID)), tag, "call", ctx.ServiceMethod(), a)
+	yield()
+	if arg != nil {
+		a = *arg
+	}
+	return fmt.Sprintf("%s|%s|%s|%d", tag, a, ctx.PeekMeta(MetaPID), ctx.Seq()), nil
 }
 
 // Push is the body of every generated PUSH handler.
 func Push(tag string, ctx erpc.PushCtx, arg *string) *erpc.Status {
-	record(string(ctx.PeekMeta(MetaPID)), tag, "push", ctx.ServiceMethod())
+	c := enterHandler(tag)
+	defer leaveHandler(c)
+	a := ""
+	if arg != nil {
+		a = *arg
+	}
+	record(string(ctx.PeekMeta(MetaPID)), tag, "push", ctx.ServiceMethod(), a)
+	yield()
 	return nil
+}
+
+// CallCtl is the body of generated CALL handlers that run on a controller object.
+func CallCtl(tag string, g *Guard, ctx erpc.CallCtx, arg *string) (string, *erpc.Status) {
+	pid := string(ctx.PeekMeta(MetaPID))
+	tok, shared := g.enter()
+	if shared != "" {
+		record(pid, tag, "guard", shared, "")
+	}
+	res, st := Call(tag, ctx, arg)
+	if shared = g.exit(tok); shared != "" {
+		record(pid, tag, "guard", shared, "")
+	}
+	return res, st
+}
+
+// PushCtl is the body of generated PUSH handlers that run on a controller object.
+func PushCtl(tag string, g *Guard, ctx erpc.PushCtx, arg *string) *erpc.Status {
+	pid := string(ctx.PeekMeta(MetaPID))
+	tok, shared := g.enter()
+	if shared != "" {
+		record(pid, tag, "guard", shared, "")
+	}
+	st := Push(tag, ctx, arg)
+	if shared = g.exit(tok); shared != "" {
+		record(pid, tag, "guard", shared, "")
+	}
+	return st
+}
+
+// splitReply parses a handler's reply.
+func splitReply(res string) (tag, arg, meta string, seq int32) {
+	p := strings.SplitN(res, "|", 4)
+	tag = p[0]
+	if len(p) == 4 {
+		arg, meta = p[1], p[2]
+		fmt.Sscanf(p[3], "%d", &seq)
+	}
+	return
 }
 
 // ---------- mapper ----------
@@ -646,12 +803,14 @@ func runProbes(srv erpc.Peer, phase string, ps []probe, sentName string) ([]Prob
 		}
 		if p.kind == "call" {
 			var res string
-			st := l.A.Call(p.name, p.id, &res, erpc.WithSetMeta(MetaPID, p.id)).Status()
+			cmd := l.A.Call(p.name, p.id, &res, erpc.WithSetMeta(MetaPID, p.id))
+			st := cmd.Status()
 			r.Code = st.Code()
 			if !st.OK() {
 				r.Msg = st.Msg()
 			}
-			r.Result = res
+			r.Result, r.RArg, r.RMeta, r.RSeq = splitReply(res)
+			r.Seq = cmd.Output().Seq()
 		} else {
 			st := l.A.Push(p.name, p.id, erpc.WithSetMeta(MetaPID, p.id))
 			r.Code = st.Code()
@@ -682,6 +841,129 @@ func runProbes(srv erpc.Peer, phase string, ps []probe, sentName string) ([]Prob
 	return out, ""
 }
 
+// creq is one request of the concurrent phase: a spelling whose final name is registered.
+type creq struct{ kind, name, final, form string }
+
+type concStats struct {
+	ops                               int
+	maxInFlight, maxSame, overlapping int64
+}
+
+// runConcurrent: several sessions and goroutines request the same route and different routes at
+// the same time; every request carries its own id in the argument and in the metadata. Each round
+// has one hot route (taken in turn from every registration form), hammered by all goroutines.
+func runConcurrent(srv erpc.Peer, phase string, reqs []creq, sentName string, rounds int, seed uint64) ([]ProbeReport, concStats, string) {
+	const sessions, perSession, opsPerG = 3, 4, 16
+	var st concStats
+	if len(reqs) == 0 || rounds == 0 {
+		return nil, st, ""
+	}
+	cli := erpc.NewPeer(erpc.PeerConfig{})
+	defer cli.Close()
+	var links []*bed.Link
+	for i := 0; i < sessions; i++ {
+		l, err := bed.Connect(cli, srv, socket.RawProtoFunc, socket.RawProtoFunc, nil)
+		if err != nil {
+			return nil, st, "connect: " + err.Error()
+		}
+		links = append(links, l)
+	}
+	groups := map[string][]creq{}
+	for _, r := range reqs {
+		groups[r.kind+"/"+r.form] = append(groups[r.kind+"/"+r.form], r)
+	}
+	var gkeys []string
+	for k := range groups {
+		gkeys = append(gkeys, k)
+	}
+	sort.Strings(gkeys)
+	rs := seed | 1
+	rnd := func(n int) int {
+		rs += 0x9E3779B97F4A7C15
+		z := rs
+		z = (z ^ (z >> 30)) * 0xBF58476D1CE4E5B9
+		z = (z ^ (z >> 27)) * 0x94D049BB133111EB
+		return int((z ^ (z >> 31)) % uint64(n))
+	}
+	atomic.StoreInt64(&maxInFlight, 0)
+	atomic.StoreInt64(&maxSame, 0)
+	atomic.StoreInt64(&overlapped, 0)
+	yieldSeed = seed
+	atomic.StoreInt32(&yieldOn, 1)
+	defer atomic.StoreInt32(&yieldOn, 0)
+	var out []ProbeReport
+	G := sessions * perSession
+	for round := 0; round < rounds; round++ {
+		grp := groups[gkeys[round%len(gkeys)]]
+		hot := grp[rnd(len(grp))]
+		plan := make([][]ProbeReport, G)
+		evMu.Lock()
+		for g := 0; g < G; g++ {
+			for i := 0; i < opsPerG; i++ {
+				r := hot
+				if rnd(10) >= 7 {
+					r = reqs[rnd(len(reqs))]
+				}
+				probeSeq++
+				id := fmt.Sprintf("%s%d", phase, probeSeq)
+				probeSet[id] = true
+				plan[g] = append(plan[g], ProbeReport{ID: id, Phase: phase, Kind: r.kind, Name: r.name, Final: r.final, Class: "concurrent:" + r.form, Src: r.final})
+			}
+		}
+		evMu.Unlock()
+		var wg sync.WaitGroup
+		for g := 0; g < G; g++ {
+			wg.Add(1)
+			go func(g int) {
+				defer wg.Done()
+				sess := links[g%sessions].A
+				for i := range plan[g] {
+					p := &plan[g][i]
+					if p.Kind == "call" {
+						var res string
+						cmd := sess.Call(p.Name, p.ID, &res, erpc.WithSetMeta(MetaPID, p.ID))
+						stt := cmd.Status()
+						p.Code = stt.Code()
+						if !stt.OK() {
+							p.Msg = stt.Msg()
+						}
+						p.Result, p.RArg, p.RMeta, p.RSeq = splitReply(res)
+						p.Seq = cmd.Output().Seq()
+					} else {
+						stt := sess.Push(p.Name, p.ID, erpc.WithSetMeta(MetaPID, p.ID))
+						p.Code = stt.Code()
+						if !stt.OK() {
+							p.Msg = stt.Msg()
+						}
+					}
+				}
+			}(g)
+		}
+		wg.Wait()
+		for g := 0; g < G; g++ {
+			out = append(out, plan[g]...)
+		}
+	}
+	// barrier per session, then wait for the handler contexts of every session
+	for _, l := range links {
+		var res string
+		if stt := l.A.Call(sentName, "s", &res).Status(); !stt.OK() || res != "SENTINEL" {
+			return nil, st, fmt.Sprintf("sentinel call %q failed: %v %q", sentName, stt, res)
+		}
+	}
+	for _, l := range links {
+		l.B.Close()
+		l.A.Close()
+	}
+	evMu.Lock()
+	for i := range out {
+		out[i].Events = append([]Event{}, events[out[i].ID]...)
+	}
+	evMu.Unlock()
+	st = concStats{len(out), atomic.LoadInt64(&maxInFlight), atomic.LoadInt64(&maxSame), atomic.LoadInt64(&overlapped)}
+	return out, st, ""
+}
+
 func runPeer(idx int, spec PeerSpec) (rep PeerReport) {
 	rep.Class = spec.Class
 	var plugins []erpc.Plugin
@@ -698,11 +980,11 @@ func runPeer(idx int, spec PeerSpec) (rep PeerReport) {
 	rc := &regCtx{peer: srv, cache: map[string]*erpc.SubRouter{}}
 	utag := fmt.Sprintf("U%d", idx)
 	ucall := func(ctx erpc.UnknownCallCtx) (interface{}, *erpc.Status) {
-		record(string(ctx.PeekMeta(MetaPID)), utag, "ucall", ctx.ServiceMethod())
+		record(string(ctx.PeekMeta(MetaPID)), utag, "ucall", ctx.ServiceMethod(), "")
 		return utag, nil
 	}
 	upush := func(ctx erpc.UnknownPushCtx) *erpc.Status {
-		record(string(ctx.PeekMeta(MetaPID)), utag, "upush", ctx.ServiceMethod())
+		record(string(ctx.PeekMeta(MetaPID)), utag, "upush", ctx.ServiceMethod(), "")
 		return nil
 	}
 	if spec.Class == EarlyUnknown {
@@ -710,14 +992,17 @@ func runPeer(idx int, spec PeerSpec) (rep PeerReport) {
 		srv.SetUnknownPush(upush)
 	}
 	calls, pushes := map[string]bool{}, map[string]bool{}
+	formOf := map[string]string{} // kind + "\x00" + name -> registration form
 	for _, r := range spec.Regs {
 		names := rc.do(r)
 		rep.Regs = append(rep.Regs, RegReport{ID: r.ID, Kind: r.Kind, Names: names})
 		for _, n := range names {
 			if isCallKind(r.Kind) {
 				calls[n] = true
+				formOf["call\x00"+n] = r.Form
 			} else {
 				pushes[n] = true
+				formOf["push\x00"+n] = r.Form
 			}
 		}
 	}
@@ -797,6 +1082,59 @@ func runPeer(idx int, spec PeerSpec) (rep PeerReport) {
 		g.ToRouter().SetUnknownPush(upush)
 		run("S", map[string]bool{"registered": true, "extension": true})
 	}
+	if rep.Problem != "" || concRounds == 0 {
+		return
+	}
+	// concurrent phase (all unknown-handlers of this peer class are set by now): spellings whose
+	// final name is registered
+	var reqs []creq
+	for _, kind := range []string{"call", "push"} {
+		own, tbl := calls, ap.call
+		if kind == "push" {
+			own, tbl = pushes, ap.push
+		}
+		for _, n := range sortedKeys(own) {
+			if n == sentName || n == "" || len(n) > 250 {
+				continue
+			}
+			form := formOf[kind+"\x00"+n]
+			switch spec.Class {
+			case RenameIgnoreCase:
+				if strings.ToLower(n) != n {
+					continue // no spelling reaches it through the plug-in
+				}
+				reqs = append(reqs, creq{kind, n, n, form})
+				if u := strings.ToUpper(n); u != n && strings.ToLower(u) == n {
+					reqs = append(reqs, creq{kind, u, n, form})
+				}
+			case RenameAlias:
+				if _, aliased := tbl[n]; !aliased {
+					reqs = append(reqs, creq{kind, n, n, form})
+				}
+			default:
+				reqs = append(reqs, creq{kind, n, n, form})
+			}
+		}
+		if spec.Class == RenameAlias {
+			var origs []string
+			for o := range tbl {
+				origs = append(origs, o)
+			}
+			sort.Strings(origs)
+			for _, o := range origs {
+				if f := tbl[o]; own[f] && f != sentName {
+					reqs = append(reqs, creq{kind, o, f, formOf[kind+"\x00"+f]})
+				}
+			}
+		}
+	}
+	out, cs, problem := runConcurrent(srv, "K", reqs, sentName, concRounds, uint64(concSeed)+uint64(idx)*7919)
+	if problem != "" {
+		rep.Problem = problem
+		return
+	}
+	rep.Probes = append(rep.Probes, out...)
+	rep.ConcOps, rep.MaxInFlight, rep.MaxInFlightSame, rep.OverlappedInvocs = cs.ops, cs.maxInFlight, cs.maxSame, cs.overlapping
 	return
 }
 
@@ -958,7 +1296,11 @@ func runCollisions(cs []Collision, dir string) []CollisionReport {
 
 // ---------- entry point ----------
 
-var currentMapper string
+var (
+	currentMapper string
+	concRounds    int
+	concSeed      int64
+)
 
 // Main is the main function of every generated program.
 //
@@ -974,6 +1316,7 @@ func Main(p Program) {
 	}
 	// process globals, set explicitly
 	currentMapper = p.Mapper
+	concRounds, concSeed = p.Rounds, p.Seed
 	erpc.SetServiceMethodMapper(MapperFunc(p.Mapper))
 	erpc.SetDefaultBodyCodec(codec.ID_JSON)
 	erpc.SetLoggerLevel("CRITICAL") // the message of erpc.Fatalf must be visible
